@@ -113,11 +113,12 @@ def runGauge (g : Gauge) : List (Int × DistData) → Gauge
   | (now, d) :: rest => runGauge (triggerOrRevert g now d) rest
 
 /-- guards of `MsgCreateGauge` (ValidateBasic, then ValidateMsgCreateGauge), `dur`/`minDur` in nanoseconds.
-`total = 0` IS accepted (`deposit ≥ 0` holds).  `aux` stands for the guards that do not involve amounts or times:
-valid gauge type id, app / pool / child pools exist and are enabled, an oracle price exists for the pair
-(gauge.go:18-28, 73-109) — the harness evaluates them with the real `ValidateMsgCreateGaugeLiquidityMetaData`. -/
+`total = 0` is refused by `ValidateBasic` (tx.go, "total triggers should be positive").  `aux` stands for the guards
+that do not involve amounts or times: valid gauge type id, app / pool / child pools exist and are enabled, an oracle
+price exists for the pair (gauge.go:18-28, 73-109) — the harness evaluates them with the real
+`ValidateMsgCreateGaugeLiquidityMetaData`. -/
 def createGuard (deposit : Int) (total : Nat) (start now dur minDur : Int) (aux : Bool) : Bool :=
-  decide (0 < dur) && decide (0 < deposit) && decide ((total : Int) ≤ deposit)
+  decide (0 < dur) && decide (0 < deposit) && decide (1 ≤ total) && decide ((total : Int) ≤ deposit)
     && decide (minDur ≤ dur) && decide (now ≤ start) && aux
 
 def newGauge (deposit : Int) (total : Nat) (start : Int) : Gauge :=
